@@ -151,6 +151,81 @@ fn judge_rt(st: &mut Stats, name: &'static str, n: usize, f: fn() -> Result<(), 
     st.check_case("C01", "roundtrip", name, || format!("C01 roundtrip {name} N={n}"), n > 0, || f().map_err(|e| e.to_string()));
 }
 
+/// heap placement: a Box<GenericArray<T, N>> built by every boxed constructor must sit at an
+/// address aligned as T (also when nothing is allocated: zero-sized T or N = 0), hold N
+/// elements at base + i*size, and read back what was written
+struct BoxFacts {
+    addrs: [usize; 4],
+    lens: [usize; 4],
+    stride_ok: bool,
+    readback_ok: bool,
+}
+
+#[inline(never)]
+fn box_facts<T: Lay, N: ArrayLength>() -> BoxFacts {
+    use generic_array::sequence::GenericSequence;
+    let sz = size_of::<T>();
+    let mut stride_ok = true;
+    let mut readback_ok = true;
+    let mut look = |b: &GA<T, N>| -> (usize, usize) {
+        let base = std::hint::black_box(b as *const GA<T, N> as usize);
+        let s = b.as_slice();
+        for (i, e) in s.iter().enumerate() {
+            if e as *const T as usize != base + i * sz {
+                stride_ok = false;
+            }
+            if e.probe() != T::make(i as u8).probe() {
+                readback_ok = false;
+            }
+        }
+        (base, s.len())
+    };
+    let a: Box<GA<T, N>> = <Box<GA<T, N>> as GenericSequence<T>>::generate(|i| T::make(i as u8));
+    let r0 = look(&a);
+    let b: Box<GA<T, N>> = Box::new(GA::<T, N>::generate(|i| T::make(i as u8)));
+    let r1 = look(&b);
+    // the O(1) conversions keep the block, hence its alignment
+    let bs: Box<[T]> = b.into_boxed_slice();
+    let slice_aligned = std::hint::black_box(bs.as_ptr() as usize) % align_of::<T>() == 0;
+    let c: Box<GA<T, N>> = match GA::<T, N>::try_from_boxed_slice(bs) {
+        Ok(c) => c,
+        Err(_) => unreachable!(),
+    };
+    let r2 = look(&c);
+    let r3 = r2;
+    if !slice_aligned {
+        stride_ok = false;
+    }
+    BoxFacts { addrs: [r0.0, r1.0, r2.0, r3.0], lens: [r0.1, r1.1, r2.1, r3.1], stride_ok, readback_ok }
+}
+
+#[inline(always)]
+fn boxed<T: Lay, N: ArrayLength>(st: &mut Stats) {
+    judge_box(st, T::NAME, align_of::<T>(), N::USIZE, box_facts::<T, N>);
+}
+
+fn judge_box(st: &mut Stats, name: &'static str, al: usize, n: usize, f: fn() -> BoxFacts) {
+    st.check_case("C01", "boxed_placement", name, || format!("C01 boxed_placement {name} N={n}"), al > 1 || n > 0, || {
+        let m = f();
+        let how = ["Box::generate", "Box::new", "into_boxed_slice/try_from_boxed_slice", "into_boxed_slice/try_from_boxed_slice"];
+        for k in 0..4 {
+            if m.addrs[k] % al != 0 {
+                return Err(format!("AlignMismatch: {} placed the array at {:#x}, not aligned as T (align {al})", how[k], m.addrs[k]));
+            }
+            if m.lens[k] != n {
+                return Err(format!("ViewMismatch: {} gives a slice of {} elements", how[k], m.lens[k]));
+            }
+        }
+        if !m.stride_ok {
+            return Err("OffsetMismatch: an element of a boxed array is not at base + i*size (or a converted block is misaligned)".into());
+        }
+        if !m.readback_ok {
+            return Err("ContentMismatch: boxed array read back differently".into());
+        }
+        Ok(())
+    });
+}
+
 #[inline(never)]
 fn tiling_facts<E: Elem, N: ArrayLength>() -> u64 {
     let a: GA<E, N> = GA::<E, N>::generate(|_| E::fresh());
@@ -179,6 +254,8 @@ macro_rules! lattice_for { ($st:expr, $maxn:expr, $T:ty; $($v:literal)*) => { $(
 macro_rules! each_layout_lattice { ($st:expr, $maxn:expr; $([$T:ty])*) => { $( { fn go(st: &mut Stats, maxn: usize) { tbl_lattice_lens!(lattice_for; st, maxn, $T); } go($st, $maxn); } )* }; }
 macro_rules! small_for { ($st:expr, $maxn:expr, $T:ty; $($v:literal)*) => { $( if $v <= $maxn { roundtrip::<$T, U<$v>, $v>($st); } )* }; }
 macro_rules! each_layout_small { ($st:expr, $maxn:expr; $([$T:ty])*) => { $( { fn go(st: &mut Stats, maxn: usize) { tbl_small_lens!(small_for; st, maxn, $T); } go($st, $maxn); } )* }; }
+macro_rules! boxed_for { ($st:expr, $maxn:expr, $T:ty; $($v:literal)*) => { $( if $v <= $maxn { boxed::<$T, U<$v>>($st); } )* }; }
+macro_rules! each_layout_boxed { ($st:expr, $maxn:expr; $([$T:ty])*) => { $( boxed_for!($st, $maxn, $T; 0 1 2 3 8 17); )* }; }
 macro_rules! tiling_lens { ($st:expr, $E:ty; $($v:literal)*) => { $( tiling::<$E, U<$v>>($st); )* }; }
 
 fn tiling_all<E: Elem>(st: &mut Stats) {
@@ -211,6 +288,9 @@ fn main() {
     }
     if args.part_on("roundtrip") {
         for_all_layouts!(each_layout_small; &mut st, args.maxn);
+    }
+    if args.part_on("boxed") {
+        for_box_layouts!(each_layout_boxed; &mut st, args.maxn);
     }
     if args.part_on("tiling") {
         tiling_all::<Tok>(&mut st);
